@@ -114,3 +114,34 @@ def chain_getitem_contract(prop, n, replay_code):
         c.assume_note(f"BOUNDED in the chain length only: chain of {n} maps, each map arbitrary (the lookup loop is unrolled over the concrete deque)")
         c.replay("code", code=replay_code())
     return chain_getitem
+
+
+# ---- Parser.parse_block: the block-nesting guard aborts, in every tolerance mode.  Shared by
+# ---- C03 (the enclosing tag suppresses the error in lax/warn mode and parsing goes on), C08 (a
+# ---- limit only aborts) and C09 (the parser's recursion is cut at the limit)
+
+def parse_block_guard_contract(prop, replay_code):
+    from pyvc.contract import contract
+
+    for mode in ("STRICT", "WARN", "LAX"):
+        def _mk(mode):
+            @contract("liquid.parser:Parser.parse_block", prop=prop, name=f"parse_block[over the nesting limit, mode={mode}]")
+            def pb(c):
+                depth, limit = c.int("block_depth"), c.int("block_nesting_limit")
+                c.requires(z3.And(depth.t >= 0, depth.t + 1 > limit.t), "this block would exceed the nesting limit")
+                env = c.obj(ENV, "env", mode=VConst(("enum", "Mode", mode)), block_nesting_limit=limit, tags=c.st.alloc(HDict(items={k: c.obj("liquid.tag:Tag", "tag_" + k) for k in ("illegal", "content", "output")})))
+                # a stream at its end: whatever the guard does, the token loop that follows it is empty
+                eof = c.obj("liquid.token:Token", "eof", kind=const("end of expression"), value=const("end of expression"), start_index=const(-1), source=const(""))
+                stream = c.obj("liquid.stream:TokenStream", "stream", tokens=c.st.alloc(HList(items=[])), pos=const(0), block_depth=depth, eof=eof)
+                parser = c.obj("liquid.parser:Parser", "parser", env=env)
+                c.summary("liquid.exceptions:lookup_warning", lambda eng, st, a, k: [(st, VConst(("warning-class",)))])
+                c.call(stream, VConst(_frozen(())), self_val=parser)
+                c.raises("BlockNestingError")
+                c.ensures("a-block-over-the-nesting-limit-is-never-parsed(the-guard-aborts-in-every-mode)", lambda r: z3.BoolVal(False))
+                c.replay("code", code=replay_code())
+        _mk(mode)
+
+
+def _frozen(data):
+    from pyvc.expr import _Frozen
+    return _Frozen(data)
